@@ -86,6 +86,8 @@ fn general_lines(g: i64) -> (Vec<&'static str>, u8, i32) {
         1 => (vec!["SampleSet: Soft", "SampleVolume: 60"], 2, 60),
         2 => (vec!["SampleSet: None"], 0, 100),
         3 => (vec!["SampleSet: Drum", "SampleVolume: 0"], 3, 0),
+        4 => (vec!["SampleVolume: 120"], 0, 120),
+        5 => (vec!["SampleSet: Soft", "SampleVolume: -30"], 2, -30),
         _ => (vec![], 0, 100),
     }
 }
@@ -144,7 +146,7 @@ impl Scenario for C12 {
         let mut rng = Rng::for_run(seed, "C12", idx);
         let mut p = Plan::new("C12", "seeded", seed, idx);
         p.set("mode", rng.below(4) as i64);
-        p.set("general", rng.below(4) as i64);
+        p.set("general", rng.below(6) as i64);
         p.set("via", *rng.pick(&[0i64, 0, 1, 2]));
         if rng.chance(1, 6) && !self.sections.is_empty() {
             let (name, l) = rng.pick(&self.sections);
@@ -156,6 +158,14 @@ impl Scenario for C12 {
         } else {
             let len = rng.below(25);
             p.lines = (0..len).map(|_| gen_line(&mut rng)).collect();
+        }
+        // the [General] section may come back between timing-point lines and change the mode
+        if rng.chance(1, 6) && !p.lines.is_empty() {
+            for _ in 0..1 + rng.below(2) {
+                let at = rng.below(p.lines.len() + 1);
+                p.lines.insert(at, format!("!mode {}", rng.below(4)));
+            }
+            p.faults.push("mode-switch-between-lines".into());
         }
         // message-style perturbations
         for _ in 0..rng.below(4) {
@@ -199,7 +209,11 @@ impl Scenario for C12 {
             }
             let _ = TimingPoints::parse_general(&mut s, &format!("Mode: {mode}"));
             for l in &plan.lines {
-                let _ = TimingPoints::parse_timing_points(&mut s, l);
+                if let Some(m) = l.strip_prefix("!mode ") {
+                    let _ = TimingPoints::parse_general(&mut s, &format!("Mode: {m}"));
+                } else {
+                    let _ = TimingPoints::parse_timing_points(&mut s, l);
+                }
             }
             let tp: TimingPoints = s.into();
             (tp.control_points, plan.lines.clone())
@@ -211,12 +225,25 @@ impl Scenario for C12 {
             }
             text.push_str(&format!("Mode: {mode}\n\n[TimingPoints]\n"));
             for l in &plan.lines {
-                text.push_str(l);
-                text.push('\n');
+                if let Some(m) = l.strip_prefix("!mode ") {
+                    text.push_str(&format!("[General]\nMode: {m}\n[TimingPoints]\n"));
+                } else {
+                    text.push_str(l);
+                    text.push('\n');
+                }
             }
             // what the driver hands to the timing parser is decided by the framing rules (C05), not by this model
             let routed = route_text(&text);
-            let seen: Vec<String> = routed.log.iter().filter(|x| x.0 == "TimingPoints").map(|x| x.1.clone()).collect();
+            // model input in delivery order: timing lines and every Mode record
+            let seen: Vec<String> = routed
+                .log
+                .iter()
+                .filter_map(|x| match x.0 {
+                    "TimingPoints" => Some(x.1.clone()),
+                    "General" => x.1.strip_prefix("Mode: ").map(|m| format!("!mode {m}")),
+                    _ => None,
+                })
+                .collect();
             if routed.log.iter().any(|x| x.0 != "TimingPoints" && x.0 != "General") {
                 // a generated line looked like a section header: outside this scenario
                 return Ok(());
